@@ -163,8 +163,17 @@ fn main() {
     let ctx = Ctx { tier, seed, threads, scale, verif_dir };
     for (pid, check, _) in props::registry() {
         if pid == id {
-            let rep = check(&ctx, &known);
+            *runner::CURRENT_PROPERTY.lock().unwrap() = pid.to_string();
+            runner::clear_provisional(&ctx, pid);
+            let rep = match runner::catch(|| check(&ctx, &known)) {
+                Ok(r) => r,
+                Err(pm) => {
+                    println!("INCONCLUSIVE property={} the harness panicked outside a generated case: {}", pid, pm);
+                    std::process::exit(2);
+                }
+            };
             let status = runner::finish(rep, &ctx, &known);
+            runner::clear_provisional(&ctx, pid);
             std::process::exit(status);
         }
     }
